@@ -241,7 +241,7 @@ fn dispatch_csr(directed: bool, ixc: i64, n0: usize, ops: &[GOp], out: &mut Out)
 
 // ------------------------------------------------------------------ adj::List
 
-fn eidx_nums<Ix: IndexType>(e: &petgraph::adj::EdgeIndex<Ix>) -> (i64, i64) {
+pub fn eidx_nums<Ix: IndexType>(e: &petgraph::adj::EdgeIndex<Ix>) -> (i64, i64) {
     // EdgeIndex has no public accessors; its Debug output is `EdgeIndex { from: a, successor_index: i }`
     let s = format!("{:?}", e);
     let nums: Vec<i64> = s.split(|c: char| !c.is_ascii_digit()).filter(|t| !t.is_empty()).map(|t| t.parse().unwrap()).collect();
